@@ -104,8 +104,16 @@ static bool makeCell(const std::string& c, Var& v)
 // <ncols> <name>*ncols <item>* : writes the table through TabularDataFile into g_csv.
 // items: a cell, `[` cells `]` = one array Var handed to operator<<, `=` = the same array Var object again.
 // lens receives the lengths the caller's array Vars have after all the writing.
-static bool writeTable(const Toks& t, std::string& lens)
+static bool writeTable(const Toks& t0, std::string& lens)
 {
+	// `tabws/tabrts <sep> <dec> …`: setSeparator / setDecimal before columns()
+	Toks t = t0;
+	int sep = -1, dec = -1;
+	if (t.size() >= 3 && (t[0] == "tabws" || t[0] == "tabrts")) {
+		sep = (int)num(t[1]);
+		dec = (int)num(t[2]);
+		t.erase(t.begin() + 1, t.begin() + 3);
+	}
 	if (t.size() < 2) return false;
 	size_t n = (size_t)num(t[1]);
 	if (t.size() < 2 + n) return false;
@@ -116,6 +124,8 @@ static bool writeTable(const Toks& t, std::string& lens)
 	bool ok = true, open = false;
 	{
 		TabularDataFile f(S(g_csv));
+		if (sep >= 0) f.setSeparator((char)sep);
+		if (dec >= 0) f.setDecimal((char)dec);
 		f.columns(cols);
 		for (size_t i = 2 + n; i < t.size() && ok; i++) {
 			const std::string& c = t[i];
@@ -227,14 +237,14 @@ static std::string step(const Toks& t)
 		IniFile f(S(g_path), false);
 		return dumpNonEmpty(f);
 	}
-	if (op == "tabw") {
+	if (op == "tabw" || op == "tabws") {
 		std::string lens;
 		if (!writeTable(t, lens)) return "bad-op";
 		std::string text;
 		getFile(g_csv, text);
 		return hex(text) + lens;
 	}
-	if (op == "tabrt" || op == "tabrtx") {
+	if (op == "tabrt" || op == "tabrtx" || op == "tabrts") {
 		std::string lens;
 		if (!writeTable(t, lens)) return "bad-op";
 		return readTable();
